@@ -1,2 +1,5 @@
 import PystogVerif.Vec
 import PystogVerif.Gen.Dispatch
+import PystogVerif.Props.C03
+import PystogVerif.Props.C04
+import PystogVerif.Props.C06
